@@ -34,7 +34,8 @@ func valueOfType(v value.Value, t ast.Type) bool {
 	return true
 }
 
-// infixAdmissible: the operator/operand-type combinations the analyzer admits.
+// infixAdmissible: the operator/operand-type combinations the analyzer admits
+// (analyzer/ast VInfixAdmits, the table the analyzer's rule is verified against).
 func infixAdmissible(op pAst.InfixOperator, l ast.Type, r ast.Type) bool {
 	if l == nil || r == nil || op > pAst.GreaterThanEqualInfixOperator {
 		return false
@@ -42,20 +43,7 @@ func infixAdmissible(op pAst.InfixOperator, l ast.Type, r ast.Type) bool {
 	if op == pAst.EqualInfixOperator || op == pAst.NotEqualInfixOperator {
 		return true
 	}
-	if l.Kind() != r.Kind() {
-		return false
-	}
-	switch l.Kind() {
-	case ast.IntTypeKind:
-		return pAst.VIsIntArith(op) || pAst.VIsCompare(op)
-	case ast.FloatTypeKind:
-		return pAst.VIsFloatArith(op) || pAst.VIsCompare(op)
-	case ast.BoolTypeKind:
-		return op == pAst.BitOrInfixOperator || op == pAst.BitAndInfixOperator || op == pAst.BitXorInfixOperator || op == pAst.LogicalOrInfixOperator || op == pAst.LogicalAndInfixOperator
-	case ast.StringTypeKind:
-		return op == pAst.PlusInfixOperator
-	}
-	return false
+	return l.Kind() == r.Kind() && ast.VScalarKind(l.Kind()) && ast.VInfixAdmits(op, l.Kind())
 }
 
 // sameKind: two evaluator values have the same dynamic type.
